@@ -47,7 +47,47 @@ def gen_dense(rng):
                 vertices=vertices, nets=nets, constraints=[], keys=keys)
 
 
+def gen_damaged(rng):
+    """A heavily damaged mesh or torus (30-40 % of the links dead, both directions) with few vertices spread by location
+    constraints and multi-sink nets: the stream in which the router's dead-link repair has to reconnect several
+    subtrees of one net and its A* paths cross subtrees that are still disconnected."""
+    w, h = rng.randint(4, 7), rng.randint(4, 7)
+    frac = rng.uniform(0.25, 0.4)
+    dead_links = []
+    for x in range(w):
+        for y in range(h):
+            for l in (0, 1, 2):
+                dx, dy = VEC[l]
+                if rng.random() < frac:
+                    dead_links.append([x, y, l])
+                    dead_links.append([(x + dx) % w, (y + dy) % h, l + 3])
+    if rng.random() < 0.5:          # mesh
+        for x in range(w):
+            for y in range(h):
+                for l, (dx, dy) in enumerate(VEC):
+                    if not (0 <= x + dx < w and 0 <= y + dy < h) and [x, y, l] not in dead_links:
+                        dead_links.append([x, y, l])
+    nv = rng.randint(4, 10)
+    vertices = [dict(id="v%d" % i, cores=1, sdram=0) for i in range(nv)]
+    ids = [v["id"] for v in vertices]
+    chips = rng.sample([(x, y) for x in range(w) for y in range(h)], nv)
+    cons = [["location", i, list(c)] for i, c in zip(ids, chips)]
+    nets = []
+    for _ in range(rng.randint(4, 10)):
+        src = rng.choice(ids)
+        nets.append(dict(source=src, sinks=rng.sample([i for i in ids if i != src], rng.randint(1, min(4, nv - 1))),
+                         weight=1.0))
+    vals = rng.sample(range(64), len(nets))
+    keys = [[v << 8, 63 << 8] for v in vals]
+    return dict(machine=dict(w=w, h=h, dead_chips=[], dead_links=dead_links, cores=3, sdram=10000, exc=[]),
+                vertices=vertices, nets=nets, constraints=cons, keys=keys)
+
+
 def gen_case(rng, big=False):
+    if rng.random() < 0.15:
+        return dict(problem=gen_damaged(rng), mode="manual", placer=rng.choice(["sequential", "hilbert"]),
+                    radius=rng.choice([0, 1, 20]), methods=rng.choice([["oc"], ["rd"], []]),
+                    target=None, seed=rng.randint(0, 10 ** 6), stream="damaged")
     if big and rng.random() < 0.1:       # thorough tier: machines up to 12x12, more vertices
         p = pnr_gen.gen_problem(rng, max_w=rng.choice([8, 12]), max_h=rng.choice([8, 12]), max_vertices=24)
         return dict(problem=p, mode=rng.choice(["manual", "wrapper", "pnr"]), placer=rng.choice(PLACERS),
